@@ -345,7 +345,14 @@ func valueNamePrefixGuard(r *core.Run) {
 		return ok && s.Sel.Name == "Name" && strings.HasSuffix(core.TypeStr(info.TypeOf(s.X)), "schema_j5pb.Enum_Option")
 	}
 	declared := func(e ast.Expr) bool {
-		s, ok := core.Unparen(e).(*ast.SelectorExpr)
+		e = core.Unparen(e)
+		if id, ok := e.(*ast.Ident); ok {
+			// `prefix := node.Schema.Prefix` named once
+			if def := soleDefinition(info, id); def != nil {
+				e = core.Unparen(def)
+			}
+		}
+		s, ok := e.(*ast.SelectorExpr)
 		return ok && s.Sel.Name == "Prefix" && strings.HasSuffix(core.TypeStr(info.TypeOf(s.X)), "schema_j5pb.Enum")
 	}
 	n := 0
